@@ -5,7 +5,7 @@ PROPERTY = "C06"
 LEVEL = "other"
 CONTRACT_MODULES = ["contracts.c06"]
 H = "batchie.scoring.main.ChunkedScoresHolder."
-CARRIERS = [H + "__init__", H + "add_score", H + "plate_id_with_minimum_score", H + "combine", H + "concat", "batchie.data.ScreenBase.is_observed"]
+CARRIERS = [H + "__init__", H + "add_score", H + "plate_id_with_minimum_score", H + "combine", H + "concat", "batchie.data.ScreenBase.is_observed", "batchie.scoring.main.select_next_plate", "batchie.scoring.main.score_chunk"]
 NATIVE = "c06.py"
 TECHNIQUE = ("contract-based deductive verification (pyvc + z3) of the scores holder and the minimum-score selection; score_chunk / "
              "select_next_plate / the two command lines by a bounded stand-in on the real functions")
